@@ -1,10 +1,18 @@
 (** * C09 — special functions.  Statements only (proofs: Proofs/C09*.v).
     Carrier: [RO] (the real-valued expression the code evaluates, with the regenerated constants).
-    Claim: PARTIAL — accuracy against the true Γ, ψ, erf at non-grid reals is not a theorem (no Γ/erf theory in
-    the installed libraries); what is proved: Γ(n) = (n−1)! to 1e-13 at all 171 integers, the reflection
-    identity, range safety of the repaired evaluation order, B(a,b) = B(b,a), the digamma recurrence (exact below
-    6, to 1e-10 on [6, 1e6]) and its Bernoulli coefficients, erf odd (x ≠ 0) and bounded by 1. *)
-From Compute Require Import Proofs.C09_base Proofs.C09.
+    Claim: PARTIAL — what is proved: Γ(n) = (n−1)! to 1e-13 at all 171 integers; the functional equation
+    Γ(z+1) = zΓ(z) to relative 2e-16 for EVERY real z in [1/2, 170.6] and, by reflection, in [−170.6, −1/2) off the poles,
+    hence the shift theorem Γ(x+n) = Γ(x)·x(x+1)…(x+n−1) within (1±2e-16)^n for every real x ≥ 1/2; Γ(n+1/2) and Γ(−n−1/2)
+    against their closed forms to 1e-13 for n = 0..170 (direct and reflection branch); B(m,n) = (m−1)!(n−1)!/(m+n−1)! to
+    1e-12 at all integer pairs; the reflection identity, range safety of the repaired evaluation order, B(a,b) = B(b,a); the digamma recurrence for EVERY x > 0 (exact below 6, to 1e-10 on the
+    whole asymptotic branch), its integer differences = harmonic sums, its Bernoulli coefficients; erf odd (x ≠ 0),
+    bounded by 1, and within 1.5e-7 of the TRUE error function 2/sqrt(pi) int_0^x exp(-t^2) dt for EVERY real x.
+    Not theorems: accuracy of Γ and B against the true functions away from integers and half-integers, and of ψ against the true digamma function
+    (no Γ/ψ theory in the installed libraries); binary64 rounding of the formulas (correspondence + oracle). *)
+From Coquelicot Require Import Coquelicot.
+From Compute Require Import Proofs.C09_base Proofs.C09 Proofs.C09_erf_all Proofs.C09_half_base
+  Proofs.C09_recur Proofs.C09_shift Proofs.C09_beta Proofs.C09_digamma.
+Open Scope R_scope.
 
 (** Tie A: every regenerated binary64 constant is a nearest double of the decimal literal in the source *)
 Theorem C09_literals_ok : forallb lit_ok all_literals = true.
@@ -66,6 +74,78 @@ Proof. exact erf_odd. Qed.
 (** known finding: the Abramowitz–Stegun formula does not vanish at 0, so oddness fails at exactly x = 0 *)
 Theorem C09_erf_at_zero : erf RO 0 = 1 / 1000000000.
 Proof. exact erf_at_zero. Qed.
+
+(** ** Extensions: accuracy against the true functions *)
+
+(** erf: the Abramowitz–Stegun formula of the code is within 1.5e-7 of the true error function, written as Coquelicot's
+    Riemann integral, for EVERY real x.  On [0,6]: adaptive cells, on each the error at the midpoint is enclosed by
+    coq-interval's [integral] and the closed-form derivative of the error by [interval] (mean value theorem); beyond 6
+    both sides are within 1e-10 of 1; negative x by oddness of both sides.  In particular at every grid point k/64,
+    k = 0..384 (stated separately as lemma [erf_accuracy_grid] in Proofs/C09_erf.v; not pinned here
+    only to keep the audit of this file short).  Re-proved on the regenerated constants. *)
+Theorem C09_erf_accuracy :
+  forall x : R,
+    Rabs (erf RO x - 2 / R_sqrt.sqrt PI * RInt (fun t => exp (- (t * t))) 0 x) <= 1.5e-7.
+Proof. exact erf_accuracy_all. Qed.
+
+(** Γ: the functional equation Γ(z+1) = zΓ(z) holds for the Lanczos formula of the code to relative 2e-16 for EVERY real
+    z in [1/2, 170.6] (direct branch; [interval] with bisection and Taylor models on the well-conditioned quotient
+    z A(z)/A(z+1) exp(...); the largest deviation is about 5.2e-17 at z = 1/2) and, through the reflection branch, for
+    every z in [−170.6, −1/2) that is not a pole *)
+Theorem C09_gamma_recurrence :
+  (forall z : R, 1/2 <= z <= 1706/10 ->
+     Rabs (gamma RO (z + 1) - z * gamma RO z) <= 2e-16 * Rabs (gamma RO (z + 1))) /\
+  (forall z : R, -1706/10 <= z < -1/2 -> sin (PI * z) <> 0 ->
+     Rabs (gamma RO (z + 1) - z * gamma RO z) <= 2e-16 * Rabs (gamma RO (z + 1))) /\
+  (* hence the shift theorem, for every real x >= 1/2 and every n with x + n <= 171.6
+     ([rprod x n] = x (x+1) ... (x+n−1)) *)
+  (forall (x : R) (n : nat), 1/2 <= x -> x + INR n <= 1716/10 ->
+     gamma RO x * rprod x n <= gamma RO (x + INR n) * (1 + 2e-16) ^ n /\
+     gamma RO (x + INR n) * (1 - 2e-16) ^ n <= gamma RO x * rprod x n).
+Proof. split; [exact gamma_recurrence_pos|split; [exact gamma_recurrence_neg|exact gamma_shift]]. Qed.
+Theorem C09_rprod_def :
+  forall x : R, rprod x 0 = 1 /\ forall n : nat, rprod x (S n) = rprod x n * (x + INR n).
+Proof. intros x; split; reflexivity. Qed.
+
+(** Γ at the half-integers, where the true value is known in closed form: Γ(n+1/2) = (2n)! sqrt(pi) / (4^n n!) (direct
+    branch) and Γ(−n−1/2) = (−4)^(n+1) (n+1)! sqrt(pi) / (2n+2)! (reflection branch), to relative 1e-13 for n = 0..170
+    (from the shift theorem and one [interval] evaluation, Γ(1/2) = sqrt(pi) to 1e-15) *)
+Theorem C09_gamma_at_half_integers :
+  Forall (fun n : nat =>
+            Rabs (gamma RO (IZR (Z.of_nat n) + 1/2)
+                  - IZR (zfact (2 * n)) * R_sqrt.sqrt PI / IZR (4 ^ Z.of_nat n * zfact n))
+            <= Rabs (IZR (zfact (2 * n)) * R_sqrt.sqrt PI / IZR (4 ^ Z.of_nat n * zfact n)) * 1e-13)
+         (seq 0 171) /\
+  Forall (fun n : nat =>
+            Rabs (gamma RO (- IZR (Z.of_nat n) - 1/2)
+                  - IZR ((-4) ^ Z.of_nat (S n) * zfact (S n)) * R_sqrt.sqrt PI / IZR (zfact (2 * S n)))
+            <= Rabs (IZR ((-4) ^ Z.of_nat (S n) * zfact (S n)) * R_sqrt.sqrt PI / IZR (zfact (2 * S n))) * 1e-13)
+         (seq 0 171).
+Proof. exact gamma_at_half_integers'. Qed.
+
+(** beta at ALL integer pairs: B(m,n) = (m−1)! (n−1)! / (m+n−1)! to relative 1e-12, m, n >= 1, m + n <= 171 *)
+Theorem C09_beta_at_integers :
+  forall m n : nat, (1 <= m)%nat -> (1 <= n)%nat -> (m + n <= 171)%nat ->
+    Rabs (beta RO (IZR (Z.of_nat m)) (IZR (Z.of_nat n))
+          - IZR (zfact (m - 1)) * IZR (zfact (n - 1)) / IZR (zfact (m + n - 1)))
+    <= IZR (zfact (m - 1)) * IZR (zfact (n - 1)) / IZR (zfact (m + n - 1)) * 1e-12.
+Proof. exact beta_at_integers. Qed.
+
+(** digamma: the recurrence ψ(x+1) = ψ(x) + 1/x to 1e-10 for EVERY x > 0 (no upper limit: the whole asymptotic branch,
+    by [interval] in u = 1/x on [0, 1/6]); hence ψ(n) − ψ(m) = H_(n−1) − H_(m−1) within (n−m)·1e-10 for all integers
+    1 ≤ m ≤ n ([harmonic k] = 1 + 1/2 + ... + 1/k; the real-argument k-step form is lemma [digamma_steps]) *)
+Theorem C09_digamma_recurrence_all :
+  (forall (fuel : nat) (x a b : R),
+     0 < x -> digamma RO (S fuel) x = Some a -> digamma RO (S fuel) (x + 1) = Some b ->
+     Rabs (b - a - 1 / x) <= 1e-10) /\
+  (forall (fuel m n : nat) (a b : R),
+     (1 <= m <= n)%nat ->
+     digamma RO (S fuel) (INR m) = Some a -> digamma RO (S fuel) (INR n) = Some b ->
+     Rabs (b - a - (harmonic (n - 1) - harmonic (m - 1))) <= INR (n - m) * 1e-10).
+Proof. split; [exact digamma_recurrence_all|exact digamma_integer_differences]. Qed.
+Theorem C09_harmonic_def :
+  harmonic 0 = 0 /\ forall n : nat, harmonic (S n) = harmonic n + 1 / INR (S n).
+Proof. split; reflexivity. Qed.
 
 (** ** Tie A: the model IS the source (expression translator).  [Generated/special.v] is re-translated from
     src/functions/gamma.rs and src/functions/statistical.rs on every run (tools/tiea/special.py, tools/rsexpr.py),
